@@ -95,7 +95,13 @@ def match_known(pid, case, desc, known):
         if kf.get("property") != pid:
             continue
         pred = getattr(known_preds, kf.get("predicate", ""), None)
-        if pred is not None and pred(case):
+        if pred is None:
+            continue
+        try:
+            hit = pred(case, desc)          # predicates may also look at what failed (the violated clause)
+        except TypeError:
+            hit = pred(case)
+        if hit:
             return kf
     return None
 
@@ -218,6 +224,9 @@ def check_property(prop, tier, seed, replay=None):
                 else:
                     discharged += 1
             discharged += n_gen
+        if any(b.startswith(("translator:", "kernel ", "inventory changed")) for b in broken):
+            # the model could not be regenerated from the current source: whatever compiled is about a stale model
+            discharged = 0
         chk_axioms = None
         if tier == "thorough" and ok_make and prop.MODULE and not replay:
             okc, chk_axioms, clog = C.coqchk(prop.MODULE)
@@ -237,6 +246,7 @@ def check_property(prop, tier, seed, replay=None):
     oracle_hits = []
     mismatches = []
     dist = {}
+    origin = {}          # id(case) -> (stream, index): lets a history-dependent failure be replayed with its prefix
     if hb_ok:
         if replay:
             payload = json.load(open(replay))
@@ -256,8 +266,10 @@ def check_property(prop, tier, seed, replay=None):
                 broken.append("model execution failed: " + res["coq_log"][-800:])
             for i, d in res["mismatches"]:
                 mismatches.append((cases[i], res["hres"][i], d))
+                origin[id(cases[i])] = (cases, i)
             for i, d in res["oracle_hits"]:
                 oracle_hits.append((cases[i], res["hres"][i], d))
+                origin[id(cases[i])] = (cases, i)
             all_nontrivial |= res["nontrivial"]
             for c in cases:
                 key = c.get("meta", {}).get("class", c.get("op", "?"))
@@ -286,7 +298,25 @@ def check_property(prop, tier, seed, replay=None):
                 lines.append(line)
             return False
         original = None
-        if not replay:
+        history = None
+        if not replay and hres.get("r") not in ("HANG", "HARNESS_ERROR") and id(case) in origin:
+            # does the input fail on its own, in a fresh process?  if not, the failure depends on what was evaluated before
+            # (hidden state): keep the shortest tried prefix of the stream that reproduces it
+            try:
+                alone = C.run_harness([strip_meta(case)])[0]
+                if alone.get("r") not in ("HANG", "HARNESS_ERROR") and not prop.oracle(case, alone):
+                    stream, i = origin[id(case)]
+                    for n in (1, 2, 4, 8, 16, 32, 64, i):
+                        pre = stream[max(0, i - n): i + 1]
+                        rr = C.run_harness([strip_meta(c) for c in pre])
+                        if prop.oracle(case, rr[-1]):
+                            history = [strip_meta(c) for c in pre]
+                            break
+                        if n >= i:
+                            break
+            except Exception as ex:
+                notes.append("history search failed: %r" % ex)
+        if not replay and history is None:
             try:
                 from . import shrink as S
                 sm = S.shrink(prop, case, strip_meta, orig_result=hres.get("r"))
@@ -299,6 +329,11 @@ def check_property(prop, tier, seed, replay=None):
                        case=strip_meta(case), implementation_result=hres.get("r"), broken=broken)
         if original is not None:
             payload["shrunk_from"] = original
+        if history is not None:
+            payload["kind"] = "failing-history"
+            payload["cases"] = history
+            payload["note"] = ("the last case fails only after the preceding ones were evaluated in the same process: the result is not "
+                               "a function of its input (hidden state)")
         path = write_replay(pid, payload)
         lines.append("VIOLATION property=%s replay=%s" % (pid, path))
         violations += 1
